@@ -437,12 +437,16 @@ def ref_window(ds, rec):
     return seq[rec["POS"] - 1:int(end)]
 
 
-def snvs_assemble(ds, rec):
-    try:
-        l = ds.locus(rec["ID"])
-    except KeyError:
-        return None
-    return [(p - l.start + 1, list(a)) for p, a in zip(l.snv_positions, l.snv_alleles)]
+def snvs_window(ds, contig, start, stop):
+    """the input variants inside a target window, as (1-based offset, alleles)"""
+    out = []
+    for l in ds.loci:
+        if l.contig != contig:
+            continue
+        for p, a in zip(l.snv_positions, l.snv_alleles):
+            if start <= p < stop:
+                out.append((p - start + 1, list(a)))
+    return sorted(out)
 
 
 def snvs_from_haplotypes(in_rec):
@@ -479,6 +483,7 @@ class Capture:
                 "format": {f.id: [copy.deepcopy(data.sampledata[f].get(s)) for s in data.samples]
                            for f in data.formatfields},
                 "id": data.locus.name,
+                "key": (data.locus.contig, int(data.locus.start) + 1),
             })
             return cap._orig(data)
 
@@ -622,11 +627,16 @@ class Runner:
         self.requests = []
 
     # ---- one program run
-    def run(self, ds, program, argv, ploidies, in_records=None, prior=None, refmasked_ids=()):
-        """returns (header lines, records, exit code, error text)"""
+    def run(self, ds, program, argv, ploidies, in_records=None, prior=None, refmasked_ids=(), targets=None, stream=None, samples=None):
+        """returns (header lines, records, exit code, error text)
+
+        `in_records` (callers): the records the program is expected to re-call (CHROM/POS/REF/ALT are compared; with
+        ``--filter-input-haplotypes`` the caller passes the records with the retained ALTs only).  `targets`
+        (assemble): [(contig, start, stop, expected ID text)], by default the dataset's loci.  Records are matched by
+        (CHROM, POS), so targets / input records without a name (ID '.') are fine."""
         chk = self.chk
         self.n_runs += 1
-        if self.n_runs % 2 == 0 and "--ploidy" in argv and os.path.isfile(argv[argv.index("--ploidy") + 1]):
+        if self.n_runs % 2 == 0 and "--ploidy" in argv and argv[argv.index("--ploidy") + 1] == ds.ploidy_file:
             # every second run reads the ploidies from a cohort-wide file that also lists samples outside the run
             argv = with_ploidy(argv, cohort_ploidy_file(ds, self.work, f"{id(ds) % 100000}"))
             chk.count("run:cohort-wide-ploidy-file")
@@ -639,6 +649,9 @@ class Runner:
         report = [x for x in report if not x.startswith("--")]
         tag = {"program": program, "report": report, "argv": [os.path.basename(a) if a.startswith(self.work) else a for a in argv],
                "ploidy": ds.ploidy, "seed": C.seed()}
+        if stream:
+            tag["stream"] = stream
+            chk.count(f"stream:{stream}")
         chk.count(f"run:{program}")
         try:
             header, recs = S.parse_vcf_text(out)
@@ -646,6 +659,9 @@ class Runner:
             chk.violation(f"{program}: unparsable output ({e})", tag, f"C07/{program}/unparsable")
             return [], [], code, err
         H = parse_header(header)
+        if samples is not None and header and H["samples"] != list(samples):
+            chk.violation(f"{program}: the sample columns of the header are {H['samples']}, expected {list(samples)}", tag, f"C07/{program}/sample-columns")
+            return header, recs, code, err
         if code != 0:
             chk.count(f"crash:{program}")
             loc = locus_of_error(err)
@@ -662,8 +678,11 @@ class Runner:
                            "records_written": len(recs)}, sig)
         # ---- every emitted line
         htok = header_token(H)
-        by_id = {x["ID"]: x for x in (in_records or [])}
-        captured = {c["id"]: c for c in cap_records}
+        by_pos = {(x["CHROM"], x["POS"]): x for x in (in_records or [])}
+        captured = {c["key"]: c for c in cap_records}
+        if targets is None:
+            targets = [(l.contig, l.start, l.stop, l.name) for l in ds.loci]
+        tg_by_pos = {(c, a + 1): (c, a, b, n) for c, a, b, n in targets}
         for rec in recs:
             line = rec["line"]
             canon = [program, line]
@@ -672,18 +691,26 @@ class Runner:
             nontriv = len(rec["ALT"]) >= 2 and opt_rg
             refwin = ref_window(ds, rec)
             if program == "assemble":
-                snvs = snvs_assemble(ds, rec)
-                if snvs is None:
+                tg = tg_by_pos.get((rec["CHROM"], rec["POS"]))
+                if tg is None:
                     chk.violation(f"assemble printed a record for an unknown target {rec['ID']}", {**tag, "line": line}, "C07/assemble/unknown-target")
                     continue
+                snvs = snvs_window(ds, tg[0], tg[1], tg[2])
+                if rec["ID"] != tg[3] or rec["INFO"].get("END") != str(tg[2]):
+                    chk.violation(f"assemble printed ID {rec['ID']} / END {rec['INFO'].get('END')} for the target {tg}",
+                                  {**tag, "line": line, "target": list(tg)}, "C07/assemble/target-window")
             else:
-                src = by_id.get(rec["ID"])
+                src = by_pos.get((rec["CHROM"], rec["POS"]))
                 if src is None:
                     chk.violation(f"{program} printed a record absent from its input ({rec['ID']})", {**tag, "line": line}, f"C07/{program}/unknown-record")
                     continue
                 snvs = snvs_from_haplotypes(src)
-                if (rec["CHROM"], rec["POS"], rec["REF"], rec["ALT"]) != (src["CHROM"], src["POS"], src["REF"], src["ALT"]):
-                    chk.violation(f"{program} changed CHROM/POS/REF/ALT of an input record", {**tag, "line": line, "input": src["line"]}, f"C07/{program}/alleles-copied")
+                if (rec["CHROM"], rec["POS"], rec["ID"], rec["REF"], rec["ALT"]) != (src["CHROM"], src["POS"], src["ID"], src["REF"], src["ALT"]):
+                    chk.violation(f"{program} changed CHROM/POS/ID/REF/ALT of an input record (after the allele filter, if any)",
+                                  {**tag, "line": line[:2000], "input": src["line"][:2000], "expected_alt": src["ALT"][:50]}, f"C07/{program}/alleles-copied")
+                if "expect_refmasked" in src and (("REFMASKED" in rec["INFO"]) != src["expect_refmasked"]):
+                    chk.violation(f"{program}: REFMASKED flag {'missing' if src['expect_refmasked'] else 'unexpected'}",
+                                  {**tag, "line": line[:2000], "input": src["line"][:2000]}, f"C07/{program}/refmasked-flag")
             chk.count(f"n_alt={min(len(rec['ALT']), 5)}")
             chk.count("refmasked" if "REFMASKED" in rec["INFO"] else "ref-called")
             chk.count(f"filter={rec['FILTER']}")
@@ -706,7 +733,7 @@ class Runner:
 
             self.ask_later(req, cb)
             # ---- internal values
-            c = captured.get(rec["ID"])
+            c = captured.get((rec["CHROM"], rec["POS"]))
             if c is not None:
                 self.compare_internal(program, rec, c, case)
         # ---- pysam
@@ -1261,7 +1288,10 @@ def run(tier, replay=None):
         unit_summarise(chk, drv, r, n_unit)
         program_phase_isolated(chk, drv, r, work, tier, n_unit)
     finally:
-        shutil.rmtree(work, ignore_errors=True)
+        if os.environ.get("VERIF_KEEP_WORK"):
+            print(f"[C07] work directory kept: {work}")
+        else:
+            shutil.rmtree(work, ignore_errors=True)
     return chk.finish()
 
 
@@ -1359,6 +1389,7 @@ def program_phase(chk, drv, r, work, tier, state, n_unit):
             chk.count(f"dataset ploidies={sorted(ds.ploidy.values())}")
             dataset_runs(rn, ds, k, tier, plan)
         single_report_sweep(rn, tier)
+        extra_streams(rn, tier)
         chk.extra["program_runs"] = rn.n_runs
         chk.extra["pysam_records_read"] = rn.pysam_checked
         dump_state(chk, state)
@@ -1402,3 +1433,366 @@ def single_report_sweep(rn, tier):
             rn.run(ds, program, ["mchap", program, "--bam", *ds.bams, "--ploidy", ds.ploidy_file, "--haplotypes", hap_gz,
                                  *extra, *rep], ploidies, in_records=in_recs)
         chk.count("single-report-selection")
+
+
+# --------------------------------------------------------------------------------------
+# input shapes that only the application glue sees (round 5)
+# --------------------------------------------------------------------------------------
+
+NO_G = ("GP", "GL", "FORMAT/GP", "FORMAT/GL")
+
+
+def plain_header(ds, extra=()):
+    lines = ["##fileformat=VCFv4.3", '##FILTER=<ID=PASS,Description="All filters passed">']
+    lines += [f"##contig=<ID={c},length={len(s)}>" for c, s in ds.contigs.items()]
+    lines += ['##INFO=<ID=END,Number=1,Type=Integer,Description="End position">', *extra]
+    lines.append("#CHROM\tPOS\tID\tREF\tALT\tQUAL\tFILTER\tINFO")
+    return lines
+
+
+def fabricate_panel(r, ds, locus, n_decoys):
+    """A haplotype VCF record for `locus` listing `n_decoys` haplotypes that no sample carries (reference or a true
+    haplotype changed at 1..4 of >= 8 positions that are not SNVs of the data set) followed by the true non-reference
+    haplotypes of the samples, which therefore get allele numbers > n_decoys.  Returns (VCF text, #true ALTs)."""
+    ref = ds.contigs[locus.contig][locus.start:locus.stop]
+    snv_off = {p - locus.start for p in locus.snv_positions}
+    free = [j for j in range(len(ref)) if j not in snv_off]
+    offs = sorted(r.sample(free, min(len(free), r.randint(8, 10))))
+    truths = []
+    for s in ds.samples:
+        for h in ds.truth[s][locus.name]:
+            if h != ref and h not in truths:
+                truths.append(h)
+    seen = set(truths) | {ref}
+    decoys = []
+    for _ in range(n_decoys * 30):
+        if len(decoys) >= n_decoys or not offs:
+            break
+        base = list(r.choice(truths)) if truths and r.random() < 0.3 else list(ref)
+        for j in r.sample(offs, r.randint(1, min(4, len(offs)))):
+            base[j] = r.choice([b for b in S.BASES if b != ref[j]])
+        h = "".join(base)
+        if h not in seen:
+            seen.add(h)
+            decoys.append(h)
+    alts = decoys + truths
+    rec = f"{locus.contig}\t{locus.start + 1}\t{locus.name}\t{ref}\t{','.join(alts) if alts else '.'}\t.\tPASS\tEND={locus.stop}"
+    return "\n".join(plain_header(ds) + [rec]) + "\n", len(truths)
+
+
+def no_g(rep):
+    return [x for x in rep if x not in NO_G]
+
+
+def caller_argv(ds, program, hap_gz, extra, ped=None, tau=None, ploidy=None, bam=None):
+    argv = ["mchap", program, "--bam", *(bam or ds.bams), "--ploidy", str(ploidy or ds.ploidy_file), "--haplotypes", hap_gz]
+    if program == "call-pedigree":
+        argv += ["--sample-parents", ped] + (["--gamete-ploidy", tau] if tau else [])
+    return argv + list(extra)
+
+
+def large_panel_stream(rn, tier):
+    """call and call-pedigree on a haplotype VCF with 130-200 ALT haplotypes: allele numbers above 127 must survive
+    every integer buffer between the sampler and the GT / ACP columns (no G-length field: too many genotypes)"""
+    chk, r, work = rn.chk, rn.r, rn.work
+    n_ds = {"warm": 1, "quick": 1, "thorough": 4}[tier]
+    for k in range(n_ds):
+        ds, locus = None, None
+        for attempt in range(6):     # bounded search for a data set in which some sample carries a non-reference haplotype
+            sub = C.rng(f"{PROP}:panel{k}:{attempt}")
+            cand = S.make_dataset(sub, os.path.join(work, f"dsP{k}_{attempt}"), n_samples=3, n_loci=1, ploidies=(2, 4),
+                                  max_snvs=3, features=set(), depth=(10, 16))
+            l = cand.loci[0]
+            ref = cand.contigs[l.contig][l.start:l.stop]
+            carriers = sum(1 for s in cand.samples if any(h != ref for h in cand.truth[s][l.name]))
+            if carriers >= 2 and l.stop - l.start - len(l.snv_positions) >= 8:
+                ds, locus = cand, l
+                break
+        if ds is None:
+            chk.count("large-panel:no-suitable-dataset")
+            continue
+        ploidies = [ds.ploidy[s] for s in ds.samples]
+        n_decoys = r.choice([130, 150, 170, 200])
+        text, n_true = fabricate_panel(r, ds, locus, n_decoys)
+        hap_gz = S.bgzip_tabix_vcf(S.write_text(os.path.join(work, f"panel{k}.vcf"), text))
+        _, in_recs = S.parse_vcf_text(text)
+        n_alt = len(in_recs[0]["ALT"])
+        chk.count("large-panel:ALT>=128" if n_alt >= 128 else "large-panel:ALT<128")
+        ped, tau = pedigree_file(r, ds, work, f"P{k}")
+        fast = ["--mcmc-steps", "150", "--mcmc-burn", "50"]
+        for program in ("call", "call-pedigree"):
+            rep = no_g(report_subset(r, force=("ACP",)))
+            _, recs, code, _ = rn.run(ds, program, caller_argv(ds, program, hap_gz, [*fast, "--report", *rep], ped, tau),
+                                      ploidies, in_records=in_recs, stream="large-panel")
+            for rec in recs:
+                hi = [a for col in rec["samples"] for a in col.get("GT", "").split("/") if a.isdigit() and int(a) >= 128]
+                chk.count(f"large-panel:{program}:GT-allele>=128", len(hi))
+                # oracle: deep clean reads of carriers of a true haplotype -> every sample is called completely and at
+                # least one called allele is one of the true haplotypes listed last (the decoys have no support)
+                if code == 0 and n_true and n_alt >= 128 and not hi:
+                    chk.count(f"large-panel:{program}:no-high-allele-called")
+        if tier == "thorough":
+            pf_text, pf = add_prior_field(r, text, "random")
+            pf_gz = S.bgzip_tabix_vcf(S.write_text(os.path.join(work, f"panel{k}.pf.vcf"), pf_text))
+            for program in ("call", "call-pedigree"):
+                rep = no_g(report_subset(r, force=("AFP",)))
+                rn.run(ds, program, caller_argv(ds, program, pf_gz, [*fast, "--prior-frequencies", "PF", "--report", *rep], ped, tau),
+                       ploidies, in_records=in_recs, prior=pf, stream="large-panel-prior")
+
+
+
+
+def hap_inputs(rn, ds, name, out_text):
+    """(bgzipped haplotype VCF, parsed records) of an assemble output"""
+    gz = S.bgzip_tabix_vcf(S.write_text(os.path.join(rn.work, f"{name}.vcf"), out_text))
+    _, recs = S.parse_vcf_text(out_text)
+    return gz, recs
+
+
+def last_output(rn):
+    return open(os.path.join(rn.work, f"out{rn.n_runs}.vcf")).read()
+
+
+def three_callers(rn, ds, hap_gz, in_recs, ploidies, fast, stream, k, exact_limit=40, rep_force=(), prior=None, extra=()):
+    """the three callers on one haplotype VCF (call-exact only when no record lists more than `exact_limit` ALTs)"""
+    r = rn.r
+    ped, tau = pedigree_file(r, ds, rn.work, f"{stream}{k}")
+    max_alt = max([len(x["ALT"]) for x in in_recs] + [0])
+    for program in ("call", "call-exact", "call-pedigree"):
+        if program == "call-exact" and max_alt > exact_limit:
+            rn.chk.count(f"{stream}:call-exact-skipped(too many genotypes)")
+            continue
+        rep = report_subset(r, force=rep_force)
+        if max_alt > 12:
+            rep = no_g(rep)
+        mc = fast if program != "call-exact" else []
+        rn.run(ds, program, caller_argv(ds, program, hap_gz, [*mc, *extra, "--report", *rep], ped, tau), ploidies,
+               in_records=in_recs, prior=prior, stream=stream)
+
+
+def noa_stream(rn, tier):
+    """records without any called allele (FILTER NOA, no ALT, REFMASKED) and records with very many ALTs: assemble with
+    --haplotype-posterior-threshold 1.0 on shallow noisy data / 0.01 on noisy data; both outputs go to the callers"""
+    chk, r, work = rn.chk, rn.r, rn.work
+    fast = ["--mcmc-steps", "150", "--mcmc-burn", "50"]
+    n_ds = {"warm": 1, "quick": 1, "thorough": 3}[tier]
+    for k in range(n_ds):
+        sub = C.rng(f"{PROP}:noa{k}")
+        ds = S.make_dataset(sub, os.path.join(work, f"dsN{k}"), n_samples=2, n_loci=3, ploidies=(2, 4), max_snvs=6,
+                            features={"nodepth"}, depth=(1, 3), error_rate=0.08)
+        ploidies = [ds.ploidy[s] for s in ds.samples]
+        for thr, name in (("1.0", "noa"), ("0.01", "many-alts")):
+            if tier == "warm" and name == "many-alts":
+                continue
+            rep = no_g(report_subset(r, force=("AFP",)))
+            _, recs, code, _ = rn.run(ds, "assemble", ds.assemble_argv(*fast, "--haplotype-posterior-threshold", thr, "--report", *rep),
+                                      ploidies, stream=name)
+            if code != 0 or not recs:
+                continue
+            chk.count(f"{name}:records-with-FILTER-NOA", sum(1 for x in recs if "NOA" in x["FILTER"].split(";")))
+            chk.count(f"{name}:max-ALT={min(50, max(len(x['ALT']) for x in recs)) // 10 * 10}+")
+            hap_gz, in_recs = hap_inputs(rn, ds, f"hapN{k}{name}", last_output(rn))
+            three_callers(rn, ds, hap_gz, in_recs, ploidies, fast, name, k, exact_limit=24)
+
+
+
+
+_FILTER_OPS = {">": lambda x, v: x > v, ">=": lambda x, v: x >= v, "<": lambda x, v: x < v, "<=": lambda x, v: x <= v,
+               "!=": lambda x, v: x != v, "=": lambda x, v: x == v}
+
+
+def filtered_records(in_recs, pf, op, value):
+    """the records a caller is expected to print under --filter-input-haplotypes PF<op><value>: ALTs whose PF value fails
+    the comparison are dropped; a failing reference allele stays listed and is flagged REFMASKED instead"""
+    out = []
+    for x in in_recs:
+        vals = pf[x["ID"]]
+        keep = [_FILTER_OPS[op](v, value) for v in vals]
+        y = dict(x)
+        y["ALT"] = [a for a, k in zip(x["ALT"], keep[1:]) if k]
+        y["expect_refmasked"] = ("REFMASKED" in x["INFO"]) or not keep[0]
+        y["dropped"] = len(x["ALT"]) - len(y["ALT"])
+        out.append(y)
+    return out
+
+
+def filter_stream(rn, tier):
+    """--filter-input-haplotypes on a PF-annotated haplotype VCF: CHROM/POS/ID/REF and the retained ALTs are expected in
+    the output, SNVPOS / NVAR are derived from the retained alleles, a filtered reference is REFMASKED"""
+    chk, r, work = rn.chk, rn.r, rn.work
+    fast = ["--mcmc-steps", "150", "--mcmc-burn", "50"]
+    n_ds = {"warm": 1, "quick": 1, "thorough": 3}[tier]
+    for k in range(n_ds):
+        sub = C.rng(f"{PROP}:filter{k}")
+        ds = S.make_dataset(sub, os.path.join(work, f"dsF{k}"), n_samples=3, n_loci=4, ploidies=(2, 4), max_snvs=4,
+                            features={"nodepth"}, depth=(4, 12), error_rate=0.03)
+        ploidies = [ds.ploidy[s] for s in ds.samples]
+        _, recs, code, _ = rn.run(ds, "assemble", ds.assemble_argv(*fast, "--haplotype-posterior-threshold", "0.05"), ploidies, stream="filter")
+        if code != 0 or not recs:
+            continue
+        pf_text, pf = add_prior_field(r, last_output(rn), "mixed")
+        pf_gz = S.bgzip_tabix_vcf(S.write_text(os.path.join(work, f"hapF{k}.pf.vcf"), pf_text))
+        _, in_recs = S.parse_vcf_text(pf_text)
+        ped, tau = pedigree_file(r, ds, work, f"F{k}")
+        exprs = [(">", 0)] + ([(r.choice([">=", ">", "<", "!=", "<="]), r.choice([0, 0.137, 0.263, 0.411]))] if tier != "warm" else [])
+        if tier == "thorough":
+            exprs += [("<", 0.263), ("!=", 0), (">=", 0.137)]
+        for j, (op, value) in enumerate(exprs):
+            if any(abs(v - value) < 1e-6 and value != 0 for vs in pf.values() for v in vs):
+                chk.count("filter:value-on-threshold(skipped)")
+                continue
+            exp = filtered_records(in_recs, pf, op, value)
+            chk.count("filter:records-with-dropped-ALT", sum(1 for y in exp if y["dropped"]))
+            chk.count("filter:records-with-filtered-REF", sum(1 for x, y in zip(in_recs, exp) if y["expect_refmasked"] and "REFMASKED" not in x["INFO"]))
+            for program in ("call", "call-exact", "call-pedigree"):
+                if tier != "thorough" and (j + ("call", "call-exact", "call-pedigree").index(program)) % 2 and j > 0:
+                    continue
+                with_prior = ["--prior-frequencies", "PF"] if r.random() < 0.5 else []
+                rep = report_subset(r, force=("AFP",) if r.random() < 0.5 else ())
+                mc = fast if program != "call-exact" else []
+                rn.run(ds, program, caller_argv(ds, program, pf_gz, [*mc, "--filter-input-haplotypes", f"PF{op}{value}", *with_prior,
+                                                                     "--report", *rep], ped, tau),
+                       ploidies, in_records=exp, stream="filter")
+
+
+
+
+def ploidy_stream(rn, tier):
+    """ploidies 1, 3 and 8 through all four programs; --ploidy given as an integer"""
+    chk, r, work = rn.chk, rn.r, rn.work
+    fast = ["--mcmc-steps", "150", "--mcmc-burn", "50"]
+    n_ds = {"warm": 1, "quick": 1, "thorough": 3}[tier]
+    for k in range(n_ds):
+        sub = C.rng(f"{PROP}:ploidy{k}")
+        ds = S.make_dataset(sub, os.path.join(work, f"dsQ{k}"), n_samples=3, n_loci=3, ploidies=(1, 3, 8), max_snvs=3,
+                            features={"nodepth"}, depth=(8, 16))
+        chk.count(f"dataset ploidies={sorted(ds.ploidy.values())}")
+        ploidies = [ds.ploidy[s] for s in ds.samples]
+        rep = report_subset(r, force=("GP",) if k % 2 == 0 else ("AFP",))
+        _, recs, code, _ = rn.run(ds, "assemble", ds.assemble_argv(*fast, "--report", *rep), ploidies, stream="ploidy-1-3-8")
+        if code != 0 or not recs:
+            continue
+        hap_gz, in_recs = hap_inputs(rn, ds, f"hapQ{k}", last_output(rn))
+        three_callers(rn, ds, hap_gz, in_recs, ploidies, fast, "ploidy-1-3-8", k, exact_limit=8)
+        # --ploidy as an integer (every sample is analysed with that ploidy, whatever it was simulated with)
+        p = r.choice([1, 3, 5]) if k % 2 == 0 else r.choice([2, 4, 6])
+        same = [p] * len(ds.samples)
+        ped, _ = pedigree_file(r, ds, work, f"I{k}")
+        tau = S.write_text(os.path.join(work, f"tau_int{k}.txt"), "".join(f"{s}\t{p // 2}\t{p - p // 2}\n" for s in ds.samples))
+        progs = ["assemble", "call", "call-exact", "call-pedigree"]
+        for program in (progs if tier == "thorough" else [progs[(k + C.seed()) % 4], progs[(k + C.seed() + 1) % 4], "call-pedigree"]):
+            rep = report_subset(r)
+            if program == "assemble":
+                argv = with_ploidy(ds.assemble_argv(*fast, "--report", *rep), str(p))
+                rn.run(ds, "assemble", argv, same, stream="ploidy-integer")
+            else:
+                mc = fast if program != "call-exact" else []
+                rn.run(ds, program, caller_argv(ds, program, hap_gz, [*mc, "--report", *rep], ped, tau, ploidy=p), same,
+                       in_records=in_recs, stream="ploidy-integer")
+
+
+def sample_order(ds, field="SM"):
+    """sample names in the order the programs derive them from the @RG lines of the --bam files"""
+    out = []
+    for p in ds.bams:
+        for rg in ds.read_groups[p]:
+            if rg[field] not in out:
+                out.append(rg[field])
+    return out
+
+
+def glue_stream(rn, tier):
+    """argument glue: --bam as a list file (paths / sample<TAB>path), --sample-pool (one pool / pool file), --read-group-field ID,
+    a pedigree member that has no BAM (listed in --sample-parents only)"""
+    chk, r, work = rn.chk, rn.r, rn.work
+    fast = ["--mcmc-steps", "150", "--mcmc-burn", "50"]
+    n_ds = {"warm": 1, "quick": 1, "thorough": 3}[tier]
+    for k in range(n_ds):
+        sub = C.rng(f"{PROP}:glue{k}")
+        ds = S.make_dataset(sub, os.path.join(work, f"dsG{k}"), n_samples=3, n_loci=3, ploidies=(2, 4), max_snvs=3,
+                            features={"multi_rg"} if (k + C.seed()) % 2 == 0 else set(), depth=(6, 12))
+        names = sample_order(ds)
+        pl = [ds.ploidy[s] for s in names]
+        W = lambda name, text: S.write_text(os.path.join(work, f"{name}{k}.txt"), text)
+        # ---- assemble, --bam <file of paths>
+        bam_list = W("bam_paths", "".join(p + "\n" for p in ds.bams))
+        argv = ["mchap", "assemble", "--bam", bam_list, "--ploidy", ds.ploidy_file, "--targets", ds.bed, "--variants", ds.snv_vcf,
+                "--reference", ds.fasta, *fast, "--report", *report_subset(r)]
+        _, recs, code, _ = rn.run(ds, "assemble", argv, pl, stream="bam-list-file", samples=names)
+        if code != 0 or not recs:
+            continue
+        hap_gz, in_recs = hap_inputs(rn, ds, f"hapG{k}", last_output(rn))
+        # ---- call, --bam <file of sample TAB path> in a shuffled order
+        order = list(names)
+        r.shuffle(order)
+        pairs = W("bam_pairs", "".join(f"{s}\t{ds.sample_bam[s]}\n" for s in order))
+        rn.run(ds, "call", ["mchap", "call", "--bam", pairs, "--ploidy", ds.ploidy_file, "--haplotypes", hap_gz, *fast, "--report", *report_subset(r)],
+               [ds.ploidy[s] for s in order], in_records=in_recs, stream="bam-sample-path-file", samples=order)
+        # ---- one pool of all samples (call-exact and assemble), ploidy as an integer
+        p_pool = r.choice([2, 4, 6])
+        rn.run(ds, "call-exact", ["mchap", "call-exact", "--bam", *ds.bams, "--sample-pool", "POOL", "--ploidy", str(p_pool), "--haplotypes", hap_gz,
+                                  "--report", *report_subset(r)], [p_pool], in_records=in_recs, stream="sample-pool-all", samples=["POOL"])
+        if tier != "warm":
+            rn.run(ds, "assemble", with_ploidy(ds.assemble_argv(*fast, "--sample-pool", "POOL", "--report", *report_subset(r)), str(p_pool)),
+                   [p_pool], stream="sample-pool-all", samples=["POOL"])
+            # ---- pool file: the first two samples form one pool; pool order = first appearance in the file
+            lines = [(names[2], "P_b"), (names[0], "P_a"), (names[1], "P_a")] if r.random() < 0.5 else [(names[0], "P_a"), (names[2], "P_b"), (names[1], "P_a")]
+            pools = []
+            for _, q in lines:
+                if q not in pools:
+                    pools.append(q)
+            pool_file = W("pools", "".join(f"{s}\t{q}\n" for s, q in lines))
+            pool_pl = {"P_a": r.choice([4, 6]), "P_b": ds.ploidy[names[2]]}
+            pool_ploidy = W("pool_ploidy", "".join(f"{q}\t{v}\n" for q, v in pool_pl.items()))
+            program = ["call", "assemble", "call-exact"][(k + C.seed()) % 3]
+            if program == "assemble":
+                argv = with_ploidy(ds.assemble_argv(*fast, "--sample-pool", pool_file, "--report", *report_subset(r)), pool_ploidy)
+                rn.run(ds, "assemble", argv, [pool_pl[q] for q in pools], stream="sample-pool-file", samples=pools)
+            else:
+                mc = fast if program == "call" else []
+                rn.run(ds, program, ["mchap", program, "--bam", *ds.bams, "--sample-pool", pool_file, "--ploidy", pool_ploidy, "--haplotypes", hap_gz,
+                                     *mc, "--report", *report_subset(r)], [pool_pl[q] for q in pools], in_records=in_recs,
+                       stream="sample-pool-file", samples=pools)
+        # ---- --read-group-field ID: every read group is a sample
+        ids = sample_order(ds, "ID")
+        sm_of = {rg["ID"]: rg["SM"] for p in ds.bams for rg in ds.read_groups[p]}
+        id_ploidy = W("id_ploidy", "".join(f"{i}\t{ds.ploidy[sm_of[i]]}\n" for i in reversed(ids)))
+        id_pl = [ds.ploidy[sm_of[i]] for i in ids]
+        chk.count(f"read-group-field-ID:samples={len(ids)}")
+        program = ["assemble", "call"][(k + C.seed()) % 2] if tier != "thorough" else None
+        if program in (None, "assemble"):
+            rn.run(ds, "assemble", with_ploidy(ds.assemble_argv(*fast, "--read-group-field", "ID", "--report", *report_subset(r)), id_ploidy),
+                   id_pl, stream="read-group-field-ID", samples=ids)
+        if program in (None, "call"):
+            rn.run(ds, "call", ["mchap", "call", "--bam", *ds.bams, "--read-group-field", "ID", "--ploidy", id_ploidy, "--haplotypes", hap_gz, *fast,
+                                "--report", *report_subset(r)], id_pl, in_records=in_recs, stream="read-group-field-ID", samples=ids)
+        # ---- a pedigree member without a BAM: appended after the samples of the BAM files, no reads at any locus
+        for role in (("founder", "child") if tier != "warm" else ("founder",)):
+            ped, _ = pedigree_file(r, ds, work, f"H{k}{role}")
+            plines = open(ped).read().rstrip("\n").split("\n")
+            gp = r.choice([2, 4])
+            if role == "founder":
+                f = plines[-1].split("\t")
+                f[r.choice([1, 2])] = "GHOST"
+                plines[-1] = "\t".join(f)
+                plines.append("GHOST\t.\t.")
+            else:
+                a, b = r.choice(names), r.choice(names)
+                plines.append(f"GHOST\t{a}\t{b if r.random() < 0.7 else '.'}")
+            # pedigree_file lists the samples in Dataset order; the programs use the order of the BAM headers
+            ped = W(f"ped_ghost_{role}", "\n".join(plines) + "\n")
+            allp = {**ds.ploidy, "GHOST": gp}
+            g_ploidy = W(f"ghost_ploidy_{role}", "".join(f"{s}\t{v}\n" for s, v in allp.items()))
+            g_tau = W(f"ghost_tau_{role}", "".join(f"{s}\t{v // 2}\t{v - v // 2}\n" for s, v in allp.items()))
+            rep = report_subset(r, force=("AFP",) if role == "child" else ())
+            rn.run(ds, "call-pedigree", ["mchap", "call-pedigree", "--bam", *ds.bams, "--ploidy", g_ploidy, "--haplotypes", hap_gz,
+                                         "--sample-parents", ped, "--gamete-ploidy", g_tau, *fast, "--report", *rep],
+                   pl + [gp], in_records=in_recs, stream=f"pedigree-member-without-bam:{role}", samples=names + ["GHOST"])
+
+
+def extra_streams(rn, tier):
+    large_panel_stream(rn, tier)
+    noa_stream(rn, tier)
+    filter_stream(rn, tier)
+    ploidy_stream(rn, tier)
+    glue_stream(rn, tier)
